@@ -83,9 +83,35 @@ func Merge(f Forest) Forest {
 // Fmt4 are the four branch strings.
 type Fmt4 struct {
 	LastDirect, LastIndirect, MidDirect, MidIndirect string
+	// Order says which branch-format options are passed and in which order ("" = "ml"): 'm' the intermedial-node
+	// option with the Mid strings, 'l' the last-node option with the Last strings, 'y' / 'x' the same two options
+	// with other strings ("Y"/"y", "X"/"x") that a later 'm' / 'l' must override. An option that is not passed
+	// leaves the documented default of its pair.
+	Order string `json:"order,omitempty"`
 }
 
-var DefaultFmt = Fmt4{"└──", "    ", "├──", "│   "}
+// Effective is the tuple the options of f.Order amount to (each option sets its own pair, the last one given wins).
+func (f Fmt4) Effective() Fmt4 {
+	if f.Order == "" {
+		return Fmt4{f.LastDirect, f.LastIndirect, f.MidDirect, f.MidIndirect, ""}
+	}
+	e := DefaultFmt
+	for _, o := range f.Order {
+		switch o {
+		case 'm':
+			e.MidDirect, e.MidIndirect = f.MidDirect, f.MidIndirect
+		case 'l':
+			e.LastDirect, e.LastIndirect = f.LastDirect, f.LastIndirect
+		case 'y':
+			e.MidDirect, e.MidIndirect = "Y", "y"
+		case 'x':
+			e.LastDirect, e.LastIndirect = "X", "x"
+		}
+	}
+	return e
+}
+
+var DefaultFmt = Fmt4{"└──", "    ", "├──", "│   ", ""}
 
 // Row is one visited node with the facts C01/C05 talk about.
 type Row struct {
@@ -99,6 +125,7 @@ type Row struct {
 
 // Rows lists the nodes of one (already merged) root in depth-first pre-order.
 func Rows(root *Node, f Fmt4) []Row {
+	f = f.Effective()
 	var out []Row
 	var rec func(n *Node, prefix string, level int, path string, isRoot, last bool)
 	rec = func(n *Node, prefix string, level int, path string, isRoot, last bool) {
